@@ -30,6 +30,7 @@ type Verifier struct {
 	pkgs    []*packages.Package
 	spkgs   map[string]*ssa.Package
 	tags    string
+	repo    string
 	params  map[string]*FieldParams // by package path
 	pinned  map[string]string       // package path -> pinned modulus (decimal)
 	cfgCache map[*ssa.Function]*cfgInfo
@@ -101,6 +102,7 @@ func (v *Verifier) pos(p token.Pos) string {
 // Load loads packages (patterns relative to /repo) under the given build tags.
 func (v *Verifier) Load(repo string, tags string, patterns ...string) error {
 	v.tags = tags
+	v.repo = repo
 	cfg := &packages.Config{Mode: packages.LoadAllSyntax, Dir: repo, Env: append(os.Environ(), "GOFLAGS=-mod=mod", "GOPROXY=off", "GOSUMDB=off", "GOTOOLCHAIN=local")}
 	bt := "verif"
 	if tags != "" {
